@@ -20,7 +20,8 @@ THEOREMS = [
     "Qentem.Props.C13.inv_empty",
     "Qentem.Props.C13.find_fuel",
     "Qentem.Props.C13.inv_step_refine_step",
-    "Qentem.Props.C13.reachable_refines_partial",
+    "Qentem.Props.C13.reachable_refines",
+    "Qentem.Props.C13.reachable_refines_hashChar",
     # the lemmas the step theorem rests on (one per routine)
     "Qentem.HashTable.find_some",
     "Qentem.HashTable.find_none",
@@ -43,9 +44,13 @@ THEOREMS = [
     "Qentem.HashTable.compress_spec",
     "Qentem.HashTable.copy_spec",
     "Qentem.HashTable.move_spec",
+    "Qentem.HashTable.merge_spec",
+    "Qentem.HashTable.buildOperand_spec",
+    "Qentem.HashTable.sort_spec",
+    "Qentem.HashTable.rename_spec",
     "Qentem.HashTable.run_refines",
 ]
-OPEN = ["Qentem.Props.C13.reachable_refines (full strength: also Rename, Sort, operator+=)"]
+OPEN = []
 
 W = 1 << 32
 
